@@ -156,12 +156,14 @@ def _cells_child(shape: Shape, hist: List[Dict[str, Any]], root: str, env: Dict[
         o: Dict[str, Any] = {"op": "eval"}
         try:
             fun = sh.user_ns[rootf]
+            rspec = [x for x in shape.roots if x["f"] == rootf][0]
+            args = [L.ARG_VALS[prog["rarg"][rec.get("ri", 1) - 1]]] if rspec.get("arg") else []
             if rec["style"] == "direct":
-                r = fun()
+                r = fun(*args)
             elif rec["style"] == "eval":
-                r = dds.eval(fun)
+                r = dds.eval(fun, *args)
             else:
-                r = dds.keep(rpath, fun)
+                r = dds.keep(rpath, fun, *args)
             o["result"] = worker._norm(r)
             o["err"] = None
         except BaseException as e:
